@@ -54,11 +54,26 @@
 #define FIXED_DIM 0
 #define COLMAJOR 0
 #define CAPK 4
-#else
+#elif KIND == 8
 #define KH k_hist_B4_col
 #define FIXED_DIM 0
 #define COLMAJOR 1
 #define CAPK 4
+#elif KIND == 9      /* FIXED buffer of 4 cells (std::array), bounded dim <= 3: a resize is accepted iff the request has exactly 4 elements */
+#define KH k_hist_F_row
+#define FIXED_DIM 0
+#define COLMAJOR 0
+#define FIXEDBUF 1
+#define CAPK 4
+#else
+#define KH k_hist_F_col
+#define FIXED_DIM 0
+#define COLMAJOR 1
+#define FIXEDBUF 1
+#define CAPK 4
+#endif
+#ifndef FIXEDBUF
+#define FIXEDBUF 0
 #endif
 #ifndef CAPK
 #define CAPK CAPN
@@ -95,12 +110,14 @@ static u64 m_stride(const ma_t* m, u64 ax){
 static void m_init(ma_t* m){
   m->dim = FIXED_DIM ? FIXED_DIM : 1; for (int i = 0; i < 3; i++) m->shape[i] = 1; m->n = 1;
   for (int i = 0; i < HCAP; i++){ m->d[i] = 0; m->known[i] = 0; } m->known[0] = 1;     /* default-constructed: one element, value 0 */
+  if (FIXEDBUF){ m->dim = 1; m->shape[0] = CAPK; m->n = CAPK; m->known[0] = 0; }          /* fixed buffer: default shape (capacity), contents unspecified */
 }
 /* returns 1 if the resize is accepted (model changed), 0 if it must be refused (model untouched) */
 static int m_resize(ma_t* m, const u64* sh, u64 sdim){
   u64 p = prodn(sh, sdim);
   if (FIXED_DIM){ if (sdim != FIXED_DIM) return 0; } else if (!UNBOUNDED && sdim > 3) return 0;
   if (!UNBOUNDED && p > CAPK) return 0;
+  if (FIXEDBUF && p != CAPK) return 0;                                             /* the buffer cannot change its length */
   m->dim = sdim; for (u64 i = 0; i < 3; i++) m->shape[i] = i < sdim ? sh[i] : 1;
   for (u64 i = 0; i < HCAP; i++) if (i >= m->n || i >= p) m->known[i] = 0;       /* cells kept by the buffer stay; newly exposed cells are unspecified */
   m->n = p;
@@ -118,7 +135,7 @@ void h_hist(void){
     { static const u64 pre_tab[4][2][4] = {            /* PRE -> { step0: object 0 , step1: object 1 } as (dim, e0, e1, e2) */
         { {2, 2, 3, 1}, {2, 3, 2, 1} }, { {2, 2, 2, 1}, {2, 1, 4, 1} }, { {3, 2, 2, 2}, {1, 4, 1, 1} }, { {1, 4, 1, 1}, {3, 1, 2, 3} } };
       if (s < 2){ const u64* e = pre_tab[PRE][s];
-        ASSUME(ops[s] == 0 && tgt[s] == s && sdim[s] == e[0] && sh[4*s] == e[1] && sh[4*s+1] == e[2] && sh[4*s+2] == e[3]);
+        /* the drawn values of these steps are overridden by the constants (no ASSUME: the differential gate samples natively and would never hit them) */
         ops[s] = 0; tgt[s] = (u8)s; sdim[s] = e[0]; sh[4*s] = e[1]; sh[4*s+1] = e[2]; sh[4*s+2] = e[3]; } }
 #endif
     ma_t* me = &m[tgt[s]]; ma_t* other = &m[tgt[s] ^ 1];
